@@ -112,6 +112,18 @@ def summarise(fn):
                             s.regs.append((f.attr, rc[:-len('notifier')].rstrip('.'), cb, n))
                 else:
                     s.calls.append((None, dotted(f) or norm(f), n))
+                    # <local>.notifier.add/remove(cb) where the local is what the function assigns to self.<field>:
+                    # a registration on the *new* object of that field, wherever it stands relative to the assignment
+                    d = dotted(f.value)
+                    if f.attr in ('add', 'remove') and d and d.endswith('.notifier') and d.count('.') == 1 and n.args:
+                        loc = d.split('.')[0]
+                        for st in ast.walk(fn):
+                            if isinstance(st, ast.Assign) and isinstance(st.value, ast.Name) and st.value.id == loc:
+                                for t in st.targets:
+                                    c = chain_of(t)
+                                    if c and '.' not in c:
+                                        n._on_new = True
+                                        s.regs.append((f.attr, c, chain_of(n.args[0]), n))
             else:
                 s.calls.append((None, dotted(f) or norm(f), n))
         elif isinstance(n, ast.Attribute) and isinstance(n.ctx, ast.Load):
